@@ -52,7 +52,99 @@ CHECKS = [
         "note": "Universe and length bound as stated; canonical-state deduplication is justified in DESIGN 4/C08 and guarded by the no-dedup run.",
         "technique": "explicit-state model checking (BFS over operation histories on the real object, reference model, canonical-state deduplication)",
     },
+    {
+        "id": 'C05',
+        "text": 'Bounded-exhaustive exploration of the trace d -parse-> L1 -write(F)-> W1 -parse-> L2 -write(F)-> W2 on the real default stacks: ~5.3k (quick) / ~100k (thorough) grammar-derived documents (generated entries over a 17-value catalogue incl. concatenations, numbers, nested braces, quote-in-brace-in-quote, multi-line values, zero fields; every document of <=2/<=3 catalogue blocks x gap texts; @string references resolved/unresolved/defined later) x the full product of BibtexFormat settings (54 / 240 formats). Oracle: content(L1)==content(L2), W1==W2 byte for byte, library and format untouched by writing.',
+        "note": 'Indent/separator range over whitespace-only strings; documents are those on which recogniser and generator agree; bounds as stated.',
+        "technique": 'bounded-exhaustive model checking of the implementation (documents x formats product) with differential round-trip laws',
+    },
+    {
+        "id": 'C06',
+        "text": 'Bounded-exhaustive exploration of the writer: every library of <=2 (quick) / <=3 (thorough) blocks over a 14-block universe (entries with 0/1/3 fields and keys shorter/equal/longer than the column, strings, preamble, comments, four kinds of failed blocks incl. CRLF and newline-terminated raw) x the product indent x value_column (9 values quick, 0..40+auto thorough) x trailing_comma x block_separator x parsing_failed_comment, through the empty and the default write stack, compared block by block with a reference renderer written from the property text (separator placement, field line layout, column rule, auto column, comma rule, verbatim failed blocks under the configured comment, format object unchanged).',
+        "note": 'Exact layout is constrained only where the property states it (entries, failed blocks, separators); strings/preambles/comments must end in a newline and re-parse to the same content. {n} may be any usual line count.',
+        "technique": 'bounded-exhaustive model checking of the implementation against a reference renderer (libraries x formats product)',
+    },
+    {
+        "id": 'C07',
+        "text": 'Bounded-exhaustive exploration of copy-mode middleware stacks on the real code: 14 libraries (parses of 10 catalogue documents with every block kind incl. failed/duplicate/middleware-error blocks, plus list-, NameParts- and int-valued variants) x every stack of length <=2 (quick) / <=3 (thorough) over a pool of 44 middleware instances (every shipped class with allow_inplace_modification=False in every option set, and the block sorter), instances reused within a stack. After each stage: canonical snapshot of the input unchanged, alias walker finds no mutable object reachable from both input and output; same for the original library vs the final result. Plus write_string twice under 6 formats.',
+        "note": 'Exception objects and immutable atoms are not aliasing; a stage that raises ends the trace without verdict (counted).',
+        "technique": 'bounded-exhaustive model checking of the implementation (stack products) with structural-snapshot and object-graph alias invariants',
+    },
+    {
+        "id": 'C09',
+        "text": 'Bounded-exhaustive exploration: every document of <=4 (quick) / <=5 (thorough) blocks over a 10-block catalogue with colliding entry/string/field keys, two separators, default and empty parse stack (21.6k / 222k documents); compared with a constructive reference walk: one block per source block, first holder live, later holders wrapped in place exposing key / first block (identity under the in-place stack) / complete duplicate with raw, repeated field keys -> duplicate-field block with every occurrence and not registered as live, entries_dict/strings_dict equal the live maps.',
+        "note": 'Catalogue and length bound as stated.',
+        "technique": 'bounded-exhaustive model checking of the implementation against a constructive reference model',
+    },
+    {
+        "id": 'C10',
+        "text": 'Bounded-exhaustive exploration of Remove/AddEnclosing: every field/@string value the real splitter produces from all value token sequences <=4 (quick) / <=5 (thorough) in three contexts, 23 special values, ints and digit strings x {field, @string} x all 8 AddEnclosing option sets x metadata {absent, recorded {, ", none, recorded for other fields only} x 6 field keys, in-place and copy. Laws: reference strip + recorded enclosing, restore with reuse, re-parse of default-enclosed balanced content through the real splitter, integer/default/reuse precedence, no exception.',
+        "note": 'Re-parse law restricted as the property states; negative ints and non-ASCII digit strings only under the no-exception clause.',
+        "technique": 'bounded-exhaustive model checking of the implementation against a reference strip/enclose model and a re-parse law',
+    },
+    {
+        "id": 'C11',
+        "text": "Bounded-exhaustive exploration: every document of <=4 (quick) / <=5 (thorough) blocks over an 8-block catalogue (duplicate and case-variant @string definitions, a string whose value is an identifier, an entry with every value form, an entry naming one string twice, definitions before/after/absent), default stack, compared with a reference computed from the source text: exactly bare case-sensitive matches of the first definition resolve to that string's final value, everything else keeps its own content, strings stay as a resolver-free stack leaves them, resolved keys recorded in field order.",
+        "note": 'Only live entries are judged; catalogue and length bound as stated.',
+        "technique": 'bounded-exhaustive model checking of the implementation against a reference resolver',
+    },
+    {
+        "id": 'C12',
+        "text": "Bounded-exhaustive exploration of split_multiple_persons_names: every token sequence over a 16-token alphabet up to length 5 (quick) / 6 plus a 10-token core to 7 (thorough), the exact token-edit balls of radius 2 (3 for the shortest base in thorough) around 3 realistic author lists, every list of <=3/<=4 catalogue names x 5 separator spellings, and the SeparateCoAuthors/MergeCoAuthors route. Oracles: conservation (regex full match of pieces and separators), idempotence, and on brace-balanced strings equality with an independent word-based reference splitter validated on the repository's 44 BibTeX-derived cases.",
+        "note": "Whitespace is the co-author code's documented set; alphabet and bounds as stated.",
+        "technique": 'bounded-exhaustive model checking of the implementation (token sequences + exact edit balls) against a reference splitter',
+    },
+    {
+        "id": 'C13',
+        "text": "Bounded-exhaustive exploration of parse_single_name_into_parts: every token sequence over a 16-token name alphabet (upper/lower/caseless words incl. a brace group holding a control word, special characters, escapes, separators, commas, unbalancing braces, bare backslash) up to length 5 (quick) / 6 (thorough), plus a 9-token word alphabet to length 7 / 9 (all case patterns of up to 4/5 words in all comma forms). Compared with a transcription of BibTeX's name rules (agrees with all 149 names of the repository's BibTeX-derived corpus in selftest) and a constructive oracle that knows each word's designed case; invalid names must raise InvalidNameError and, through SplitNameParts and parse_string, yield a MiddlewareErrorBlock retaining the entry.",
+        "note": 'Words with table-driven case are outside the alphabet; names with an empty von-Last section are judged for word conservation only.',
+        "technique": "bounded-exhaustive model checking of the implementation against a validated transcription of BibTeX's algorithm (two-oracle rule)",
+    },
+    {
+        "id": 'C14',
+        "text": "Bounded-exhaustive exploration of the inverse pair: every valid single name over the C13 alphabet up to length 4 (quick) / 5 (thorough) in the property's domain, and every list of 2 (quick) / 2-3 (thorough) persons over a 57-name catalogue (one per form x case pattern and per first-character class of the merged name), through the function pair and through parse_string(append=[SeparateCoAuthors, SplitNameParts]) -> write_string(prepend=[MergeNameParts, MergeCoAuthors]) -> parse for author (braced), editor (quoted), translator. Oracle: same NameParts lists, no failed block, other fields unchanged.",
+        "note": "Domain as the property states plus: no person literally named 'and', value and merged value embeddable in the dialect (R3).",
+        "technique": 'bounded-exhaustive model checking of the implementation with a differential inverse law (function pair and whole stack)',
+    },
+    {
+        "id": 'C15',
+        "text": 'Exhaustive as the property states: 12 months x every spelling (int, digit strings with 0-2 leading zeros, all case variants of abbreviation and full name: 1704 values) x 3 middlewares x all 9 ordered pairs x in-place/copy; 31 non-month values must come back identical; ~200 Unicode values (non-ASCII digits, one code point per category, 5000-digit string, NUL, surrogate) for the no-exception clause; long-lived instances compared with fresh ones over collision sequences; entries without month untouched. Oracle: the 12-month table, result types, composition law M2(M1(v)) == M2(v).',
+        "note": 'bool is not treated as an integer month.',
+        "technique": 'exhaustive model checking of the implementation over the finite month/value space against a table reference and a composition law',
+    },
+    {
+        "id": 'C16',
+        "text": 'Bounded-exhaustive exploration of SortBlocksByTypeAndKeyMiddleware: every library of <=3 (quick) / <=4 (thorough) blocks over an 11-block universe (equal keys across types, empty key, duplicate-key and duplicate-field blocks, failed block, both comment kinds) x all 326 ordered sub-permutations of the five block types x both comment modes (0.95M / 10.5M transforms). Judged by the property itself: permutation of canonical blocks, non-decreasing (rank, key), ties in input order, comment runs directly above their block, input unchanged and unaliased.',
+        "note": 'Position of a trailing comment-only run is not constrained.',
+        "technique": 'bounded-exhaustive model checking of the implementation (libraries x orders product) with property-style invariants',
+    },
+    {
+        "id": 'C17',
+        "text": 'Bounded-exhaustive exploration of SortFieldsAlphabetically, SortFieldsCustom and NormalizeFieldKeys: every entry with 0..5 (quick) / 0..6 (custom) and 0..8 (alphabetical, normalise) (thorough) fields over keys {a, A, b, B, c}, values unique per position, x 130 custom orders (all permutations of all subsets of {a, A, b, c}, case-sensitive or not; colliding orders must be rejected at construction), in-place and copy, library also holding one block of every other kind. Judged by the property: permutation, rank order, ties in source order, normalisation merge rule, idempotence, everything else untouched.',
+        "note": 'Alphabetical order is Python string order.',
+        "technique": 'bounded-exhaustive model checking of the implementation (entries x orders product) with property-style invariants',
+    },
+    {
+        "id": 'C18',
+        "text": 'Bounded-exhaustive exploration of Latex en/decoding: round trip decode(encode(t)) == t for every token sequence up to length 3 (quick) / 4 (thorough) over a 49-token text alphabet (letters, accented letters, punctuation, TeX specials, math and URL tokens) x keep_math x enclose_urls, through fields and @string, with fresh and long-lived instances; scope/type claims on a catalogue library (str, int, list, NameParts, None values, strings, every other block kind) under 40 constructor variants incl. custom converters, in-place and copy; containment of converter failures at first/last field, name part and @string. F18 (URLs containing $ % & \\ { } ~) is a recorded known finding of the third-party decoder.',
+        "note": 'Decided for pylatexenc as installed; texts that are ambiguous in themselves are outside the alphabet (DESIGN 3.2).',
+        "technique": 'bounded-exhaustive model checking of the implementation (token sequences x options) with round-trip, scope and containment oracles',
+    },
+    {
+        "id": 'C19',
+        "text": 'Explicit-state breadth-first closure of the state graph of real Entry objects under all mutating operations (set_field, item assignment, pop with/without default, del) over keys {a, A, b} x values {1, 2} from the empty entry and 3 parsed entries (390 states), every read accessor evaluated in every state against a plain dict, plus every history of mutating and reading operations to depth 3 (quick) / 4 (thorough) without deduplication; and for every block and field of 8 parsed documents every single-attribute perturbation (!= both ways) and copy/deepcopy (== both ways), cross-class pairs.',
+        "note": 'Canonical state is the whole __dict__ of the entry, so hidden state added by a change splits states instead of hiding them; del of an absent key is mapped to pop as documented.',
+        "technique": 'explicit-state model checking (BFS over operation histories on the real object against a dict reference) + exhaustive single-attribute perturbations',
+    },
+    {
+        "id": 'C20',
+        "text": 'Bounded-exhaustive exploration of the entry points: every stack of 0..2 (quick) / 0..3 (thorough) middlewares over a 7-element pool (3 order-sensitive probes, a library probe, RemoveEnclosing, AddEnclosing, ResolveStringReferences) in each of 6 argument positions x list/tuple/one-shot iterator x 5 documents, each compared with the same stack folded by hand over Splitter output / handed to the writer and followed by a default call (state left between calls); parse_file x 5 documents x up to 5 encodings x 4 stack arguments; write_file x path/StringIO/file object x stack and format arguments; illegal argument pairs on all 4 entry points; block-protocol probes (18 result shapes x 5 block kinds x 3 routes).',
+        "note": "Default stacks are the documented ones (constructed by the harness, not taken from the library's factory functions); write_file(path) decided for the process' default text encoding.",
+        "technique": 'bounded-exhaustive model checking of the implementation with a differential oracle (entry point vs hand-folded stack)',
+    },
 ]
+
+CHECKS.sort(key=lambda c: c["id"])
 
 _claimed = {c["id"] for c in CHECKS}
 NOT_APPLICABLE = [
